@@ -655,6 +655,9 @@ func (e *Exec) binop(op token.Token, l, r Term, c *Ctx, n ast.Node) Term {
 		return Term{fmt.Sprintf("(> %s %s)", l.S, r.S), tBool}
 	case token.GEQ:
 		return Term{fmt.Sprintf("(>= %s %s)", l.S, r.S), tBool}
+	case token.AND, token.OR, token.XOR, token.SHL, token.SHR, token.AND_NOT:
+		// bit operations: uninterpreted (deterministic) functions of the operands
+		return e.uninterp("bitop!"+mangle(op.String()), []Term{l, r}, rt)
 	default:
 		e.errorf("%s: unsupported binary operator %s", e.curPos, op)
 		return Term{e.vc.FreshConst("unk", e.Sort(rt)), rt}
@@ -967,11 +970,17 @@ func (e *Exec) strLen(s Term) string {
 
 // ---------------------------------------------------------------- composite literals / allocation
 
+func (e *Exec) rtypeTag(what string) int {
+	e.vc.Decl("fun:rtype", "(declare-fun rtype (Int) Int)")
+	return e.vc.Tag("rt:" + what)
+}
+
 func (e *Exec) alloc(st *State, what string) string {
 	r := e.vc.FreshConst("new_"+what, "Int")
 	at := &Type{K: KGMap, Key: tInt, Elem: tBool}
 	al := e.get(st, "$alloc", at)
-	e.assume(st, fmt.Sprintf("(and (> %s 0) (not (select %s %s)))", r, al.S, r))
+	e.allocKinds[what] = true
+	e.assume(st, fmt.Sprintf("(and (> %s 0) (not (select %s %s)) (= (rtype %s) %d))", r, al.S, r, r, e.rtypeTag(what)))
 	e.set(st, "$alloc", Term{fmt.Sprintf("(store %s %s true)", al.S, r), at})
 	return r
 }
@@ -1038,7 +1047,7 @@ func (e *Exec) compositeLit(v *ast.CompositeLit, c *Ctx, addr bool) Term {
 		}
 		return m
 	}
-	if t.K == KOpaque {
+	if t.K == KOpaque || t.K == KInt {
 		return e.Zero(t)
 	}
 	e.errorf("%s: unsupported composite literal of %s", e.curPos, t)
